@@ -151,6 +151,9 @@ func (c *corpus) inputT(r *rng, pLarge int, theme string) scn.Input {
 	case 3: // a tail the grammars cannot recover from: errors reported, then no tree at all
 		in.Src = append(in.Src, fatalTails[r.n(len(fatalTails))]...)
 		in.Name += "[fatal]"
+	case 4: // keywords in another letter case (they are case-insensitive)
+		in.Src = kwCase(r, in.Src)
+		in.Name += "[kwcase]"
 	}
 	if f.php5 && r.chance(60) {
 		in.Version = []string{"5.0", "5.3", "5.6"}[r.n(3)]
@@ -361,52 +364,45 @@ func genC11(c *corpus, seed uint64) *scn.Scenario {
 		theme = c.themeNames[r.n(len(c.themeNames))]
 		s.Theme = theme
 	}
+	// swarm flavours. family: every input is a variant of the first one (what a
+	// loosely keyed cache or a process-wide table conflates). crowd: many tiny
+	// malformed inputs under one grammar, so that one process meets many
+	// different error states and recovery paths (state kept per error site).
+	family, crowd := false, false
+	switch x := r.n(100); {
+	case x < 12:
+		family = true
+		ni = 2 + r.n(5)
+		pLarge = 0
+		s.Theme = "family:" + theme
+	case x < 20:
+		crowd = true
+		ni = 12 + r.n(28)
+		maxOps = 2
+		if s.Kind == "A" {
+			nt = 2 + r.n(3)
+			maxPipes = 4 + r.n(8)
+		}
+		s.Theme = "crowd"
+	}
+	crowdVers := [][]string{{"5.0", "5.3", "5.6"}, {"7.0", "7.1", "7.2", "7.3", "7.4", ""}}[r.n(2)]
 	for i := 0; i < ni; i++ {
-		if i > 0 && r.chance(15) {
+		if crowd {
+			in := c.tiny(r)
+			in.Version = crowdVers[r.n(len(crowdVers))]
+			s.Inputs = append(s.Inputs, in)
+			continue
+		}
+		if i > 0 && (family || r.chance(15)) {
 			// a near-duplicate of an earlier input (loosely keyed caches and
-			// interning tables conflate the two): a few letters with flipped
-			// case, a namespace separator removed from or inserted into a
-			// name, or a blank inserted next to one
-			src := s.Inputs[r.n(i)]
-			v := scn.Input{Name: src.Name, Src: append([]byte(nil), src.Src...), Version: src.Version, Callback: src.Callback}
-			isId := func(ch byte) bool {
-				return ch == '_' || (ch >= 'a' && ch <= 'z') || (ch >= 'A' && ch <= 'Z') || (ch >= '0' && ch <= '9')
+			// interning tables conflate the two)
+			base := r.n(i)
+			if family {
+				base = 0
 			}
-			var letters, seps, mids []int
-			for k, ch := range v.Src {
-				if (ch >= 'a' && ch <= 'z') || (ch >= 'A' && ch <= 'Z') {
-					letters = append(letters, k)
-				}
-				if ch == '\\' && k > 0 && k+1 < len(v.Src) && isId(v.Src[k-1]) && isId(v.Src[k+1]) {
-					seps = append(seps, k)
-				}
-				if k > 1 && k+2 < len(v.Src) && isId(ch) && isId(v.Src[k-1]) && isId(v.Src[k-2]) && isId(v.Src[k+1]) {
-					mids = append(mids, k)
-				}
-			}
-			switch x := r.n(5); {
-			case x == 4:
-				// the same bytes under another version: version-dependent
-				// behaviour memoised per process / per content shows here
-				v.Version = versions[r.n(len(versions))]
-				v.Name += "[ver]"
-			case x == 0 && len(seps) > 0:
-				k := seps[r.n(len(seps))]
-				v.Src = append(v.Src[:k], v.Src[k+1:]...)
-				v.Name += "[sep-]"
-			case x == 1 && len(mids) > 0:
-				k := mids[r.n(len(mids))]
-				v.Src = append(v.Src[:k], append([]byte{'\\'}, v.Src[k:]...)...)
-				v.Name += "[sep+]"
-			case x == 2 && len(seps) > 0:
-				k := seps[r.n(len(seps))]
-				v.Src = append(v.Src[:k], append([]byte{' '}, v.Src[k:]...)...)
-				v.Name += "[ws]"
-			default:
-				for f := 1 + r.n(4); f > 0 && len(letters) > 0; f-- {
-					v.Src[letters[r.n(len(letters))]] ^= 0x20
-				}
-				v.Name += "[case]"
+			v := nearDup(r, s.Inputs[base])
+			if family && r.chance(40) {
+				v = nearDup(r, v)
 			}
 			s.Inputs = append(s.Inputs, v)
 			continue
@@ -436,6 +432,25 @@ func genC11(c *corpus, seed uint64) *scn.Scenario {
 		}
 		s.Tasks = append(s.Tasks, task)
 	}
+	if crowd {
+		// every input is parsed by some pipeline: deal the unused ones out
+		used := make([]bool, ni)
+		for t := range s.Tasks {
+			for _, p := range s.Tasks[t].Pipelines {
+				used[p.Input] = true
+			}
+		}
+		for i := 0; i < ni; i++ {
+			if !used[i] {
+				t := r.n(len(s.Tasks))
+				p := scn.Pipeline{Input: i, ShareVersion: shareAll}
+				if r.chance(30) {
+					p.Ops = append(p.Ops, scn.Op{Kind: c11Ops[r.n(len(c11Ops))]})
+				}
+				s.Tasks[t].Pipelines = append(s.Tasks[t].Pipelines, p)
+			}
+		}
+	}
 	// keep heavy runs bounded: pipelines over a large input get at most 2 ops,
 	// and at most 3 pipelines may use a large input
 	heavy := 0
@@ -461,6 +476,167 @@ func genC11(c *corpus, seed uint64) *scn.Scenario {
 	s.Knob = knobs[r.n(len(knobs))]
 	s.Faults = scn.Faults{Seed: r.next(), GCSteps: r.gcSteps(est)}
 	return s
+}
+
+var phpKeywords = []string{"function", "const", "use", "namespace", "class", "static", "new", "return", "echo", "array", "list", "as", "extends", "implements", "instanceof", "trait", "interface", "public", "private", "abstract", "final", "global", "isset", "unset", "foreach", "while", "if", "else", "elseif", "switch", "case", "default", "try", "catch", "finally", "throw", "self", "parent", "null", "true", "false", "int", "string", "callable", "insteadof", "yield", "from", "fn", "declare", "goto", "print", "clone", "exit", "die", "var", "and", "or", "xor"}
+
+// kwCase rewrites some (or all) of the PHP keywords that occur in src in another
+// letter case; keywords are case-insensitive, so the program stays the same.
+func kwCase(r *rng, src []byte) []byte {
+	isId := func(ch byte) bool {
+		return ch == '_' || (ch >= 'a' && ch <= 'z') || (ch >= 'A' && ch <= 'Z') || (ch >= '0' && ch <= '9') || ch >= 0x80
+	}
+	type occ struct{ at, kw int }
+	var occs []occ
+	present := map[int]bool{}
+	for k := 0; k < len(src); k++ {
+		if k > 0 && (isId(src[k-1]) || src[k-1] == '$' || src[k-1] == '>' || src[k-1] == ':' || src[k-1] == '\\') {
+			continue
+		}
+		for ki, kw := range phpKeywords {
+			if k+len(kw) <= len(src) && bytes.EqualFold(src[k:k+len(kw)], []byte(kw)) && (k+len(kw) == len(src) || !(isId(src[k+len(kw)]) || src[k+len(kw)] == '\\')) {
+				occs = append(occs, occ{k, ki})
+				present[ki] = true
+				break
+			}
+		}
+	}
+	if len(occs) == 0 {
+		return src
+	}
+	var kws []int
+	for ki := range phpKeywords {
+		if present[ki] {
+			kws = append(kws, ki)
+		}
+	}
+	chosen := map[int]int{} // keyword -> style
+	if r.chance(35) {
+		st := r.n(3)
+		for _, ki := range kws {
+			chosen[ki] = st
+		}
+	} else {
+		for n := 1 + r.n(3); n > 0; n-- {
+			chosen[kws[r.n(len(kws))]] = r.n(3)
+		}
+	}
+	out := append([]byte(nil), src...)
+	for _, o := range occs {
+		style, ok := chosen[o.kw]
+		if !ok {
+			continue
+		}
+		kw := phpKeywords[o.kw]
+		for j := 0; j < len(kw); j++ {
+			if style == 0 || (style == 1 && j == 0) || (style == 2 && j%2 == 1) {
+				out[o.at+j] = kw[j] &^ 0x20
+			} else {
+				out[o.at+j] = kw[j]
+			}
+		}
+	}
+	return out
+}
+
+// nearDup derives a slightly different input from src: a few letters with
+// flipped case, a namespace separator removed from or inserted into a name, a
+// blank inserted next to one, the same bytes under another version, one or
+// several keywords in another letter case (PHP keywords are case-insensitive),
+// or one line removed (say, an import that the rest of the file relies on).
+func nearDup(r *rng, src scn.Input) scn.Input {
+	v := scn.Input{Name: src.Name, Src: append([]byte(nil), src.Src...), Version: src.Version, Callback: src.Callback}
+	isId := func(ch byte) bool {
+		return ch == '_' || (ch >= 'a' && ch <= 'z') || (ch >= 'A' && ch <= 'Z') || (ch >= '0' && ch <= '9') || ch >= 0x80
+	}
+	var letters, seps, mids []int
+	for k, ch := range v.Src {
+		if (ch >= 'a' && ch <= 'z') || (ch >= 'A' && ch <= 'Z') {
+			letters = append(letters, k)
+		}
+		if ch == '\\' && k > 0 && k+1 < len(v.Src) && isId(v.Src[k-1]) && isId(v.Src[k+1]) {
+			seps = append(seps, k)
+		}
+		if k > 1 && k+2 < len(v.Src) && isId(ch) && isId(v.Src[k-1]) && isId(v.Src[k-2]) && isId(v.Src[k+1]) {
+			mids = append(mids, k)
+		}
+	}
+	switch x := r.n(7); {
+	case x == 4:
+		// the same bytes under another version: version-dependent
+		// behaviour memoised per process / per content shows here
+		v.Version = versions[r.n(len(versions))]
+		v.Name += "[ver]"
+	case x == 5:
+		// keywords in another letter case
+		v.Src = kwCase(r, v.Src)
+		v.Name += "[kwcase]"
+	case x == 6:
+		lines := bytes.SplitAfter(v.Src, []byte("\n"))
+		if len(lines) > 2 {
+			k := 1 + r.n(len(lines)-1)
+			// prefer an import line when there is one
+			var uses []int
+			for li, l := range lines {
+				if t := bytes.TrimSpace(l); li > 0 && len(t) > 4 && bytes.EqualFold(t[:4], []byte("use ")) {
+					uses = append(uses, li)
+				}
+			}
+			if len(uses) > 0 && r.chance(70) {
+				k = uses[r.n(len(uses))]
+			}
+			v.Src = bytes.Join(append(append([][]byte{}, lines[:k]...), lines[k+1:]...), nil)
+		}
+		v.Name += "[line-]"
+	case x == 0 && len(seps) > 0:
+		k := seps[r.n(len(seps))]
+		v.Src = append(v.Src[:k], v.Src[k+1:]...)
+		v.Name += "[sep-]"
+	case x == 1 && len(mids) > 0:
+		k := mids[r.n(len(mids))]
+		v.Src = append(v.Src[:k], append([]byte{'\\'}, v.Src[k:]...)...)
+		v.Name += "[sep+]"
+	case x == 2 && len(seps) > 0:
+		k := seps[r.n(len(seps))]
+		v.Src = append(v.Src[:k], append([]byte{' '}, v.Src[k:]...)...)
+		v.Name += "[ws]"
+	default:
+		for f := 1 + r.n(4); f > 0 && len(letters) > 0; f-- {
+			v.Src[letters[r.n(len(letters))]] ^= 0x20
+		}
+		v.Name += "[case]"
+	}
+	return v
+}
+
+// tiny draws a tiny malformed input: an end-of-input truncation (one per lexer
+// state), a malformed corpus member, or a small valid one cut at a random
+// place (a different parser state at the end of input each time).
+func (c *corpus) tiny(r *rng) scn.Input {
+	var f corpusFile
+	bad := c.themes["malformed"]
+	cut := false
+	switch x := r.n(10); {
+	case x < 3 && len(c.eof) > 0:
+		f = c.eof[r.n(len(c.eof))]
+	case x < 5 && len(bad) > 0:
+		f = bad[r.n(len(bad))]
+	default:
+		f = c.small[r.n(len(c.small))]
+		cut = true
+	}
+	in := scn.Input{Name: f.name, Src: append([]byte(nil), f.src...), Callback: r.chance(90)}
+	if len(in.Src) > 600 {
+		in.Src = in.Src[:100+r.n(500)]
+		in.Name += "[cut]"
+	} else if cut && len(in.Src) > 8 {
+		in.Src = in.Src[:6+r.n(len(in.Src)-6)]
+		in.Name += "[cut]"
+	} else if r.chance(25) {
+		in.Src = append(in.Src, fatalTails[r.n(len(fatalTails))]...)
+		in.Name += "[fatal]"
+	}
+	return in
 }
 
 func smallest(in []scn.Input) int {
